@@ -253,7 +253,7 @@ def dedup_histories(execs, proj):
 # TLC
 # ------------------------------------------------------------------------------------------------
 def tlc_cmd(spec, cfg, metadir, workers=1, heap='3g', extra=(), simulate=None):
-    cmd = ['java', '-XX:+UseParallelGC', '-Xmx' + heap, '-Xss16m', '-DTLA-Library=' + SPEC, '-cp', TLC_CP, 'tlc2.TLC', '-workers', str(workers),
+    cmd = ['java', '-XX:+UseParallelGC', '-Xmx' + heap, '-Xss256m', '-DTLA-Library=' + SPEC, '-cp', TLC_CP, 'tlc2.TLC', '-workers', str(workers),
            '-metadir', metadir, '-noGenerateSpecTE', '-config', cfg]
     if simulate:
         cmd += ['-simulate', simulate]
